@@ -52,7 +52,17 @@ def parse_kv(s):
 
 
 def parse_template(path):
-    lines = read(path).splitlines()
+    def _flatten(pth, depth=0):
+        out = []
+        for raw in read(pth).splitlines():
+            m = re.match(r"\s*//@include\s+(\S+)\s*$", raw)
+            if m and depth < 5:
+                out += _flatten(os.path.join(VDIR, m.group(1)), depth + 1)
+            else:
+                out.append(raw)
+        return out
+
+    lines = _flatten(path)
     unit = {"path": path, "name": os.path.basename(path)[:-4], "props": [], "tier": "quick",
             "features": list(DEFAULT_FEATURES), "segments": [], "obs": []}
     i = 0
@@ -78,6 +88,12 @@ def parse_template(path):
                 unit["props"] = [p.strip() for p in rest.split(",") if p.strip()]
             elif word == "tier":
                 unit["tier"] = rest
+            elif word == "portfolio":
+                unit["portfolio"] = rest
+            elif word == "timeout":
+                unit["timeout"] = int(rest)
+            elif word == "verus_args":
+                unit["verus_args"] = rest.split()
             elif word == "features":
                 unit["features"] = [p.strip() for p in rest.split(",") if p.strip()]
             elif word == "include":
@@ -94,7 +110,7 @@ def parse_template(path):
                 close_block()
                 unit["segments"].append(("extract", cur_extract))
                 cur_extract = None
-            elif word in ("spec", "loop", "after", "before", "prefix", "subst"):
+            elif word in ("spec", "loop", "after", "before", "prefix", "subst", "attr"):
                 if not cur_extract:
                     raise Undecided("%s: //@%s outside //@extract at line %d" % (path, word, i + 1))
                 close_block()
@@ -523,6 +539,12 @@ def apply_blocks(sig, body, fname, blocks, rw, what, probe):
             sig = sig[:m.start()] + "-> (r: %s)" % m.group(1).strip()
             rw.hit("R11 return value named r")
         sig = sig.rstrip() + "\n" + "\n".join(spec[0]["lines"]).rstrip() + "\n"
+    for b in blocks:
+        if b["kind"] == "attr" and b["rest"].split()[0] == fname:
+            # verifier attributes (e.g. #[verifier::nonlinear]) go in front of the signature
+            ind = re.match(r"\s*", sig).group(0)
+            k = len(sig) - len(sig.lstrip())
+            sig = sig[:k] + "\n".join(l.strip() for l in b["lines"] if l.strip()) + "\n" + ind.split("\n")[-1] + sig[k:]
     inserts = []  # (offset in body, text)
     lp = None
     for b in blocks:
@@ -552,7 +574,8 @@ def apply_blocks(sig, body, fname, blocks, rw, what, probe):
         elif b["kind"] == "prefix":
             inserts.append((1, "\n" + txt))
     if probe and has_spec:
-        inserts.append((1, "\n        assert(false); // vacuity probe: must FAIL, else the precondition is contradictory\n"))
+        inserts.append((1, "\n        assert(false); // vacuity probe: must FAIL, else the precondition is contradictory\n"
+                           "        proof { assume(false); } // (probe variant only) the rest of the body is not re-checked here\n"))
     for off, txt in sorted(inserts, key=lambda x: -x[0]):
         body = body[:off] + txt + body[off:]
     return sig, body, has_spec
@@ -834,11 +857,13 @@ def parse_verus_output(out, path, text):
     spans = fn_spans(text)
 
     def fn_at(line):
+        # Verus reports locations inside a function's spec clauses or body: the function is the one whose header
+        # is the last `fn` header at or before that line
         best = None
-        for s, e, n in spans:
-            if s <= line <= e and (best is None or s >= best[0]):
-                best = (s, e, n)
-        return best[2] if best else None
+        for s0, _e0, n in spans:
+            if s0 <= line and (best is None or s0 >= best[0]):
+                best = (s0, n)
+        return best[1] if best else None
 
     m = re.search(r"verification results::\s*(\d+) verified,\s*(\d+) errors", out)
     verified = int(m.group(1)) if m else None
@@ -866,7 +891,7 @@ def parse_verus_output(out, path, text):
             continue
         fns = [fn_at(l) for l in locs]
         fns = [f for f in fns if f]
-        findings.append({"kind": kind, "msg": msg, "lines": locs, "fn": fns[-1] if kind == "postcondition not satisfied" and fns else (fns[0] if fns else None),
+        findings.append({"kind": kind, "msg": msg, "lines": locs, "fn": fns[0] if fns else None,
                          "text": b[:2500]})
     for mk in UNDECIDED_MARKERS:
         if mk in out and not findings:
@@ -874,47 +899,146 @@ def parse_verus_output(out, path, text):
     return verified, errors, findings, hard
 
 
-def run_unit(u, scratch, rlimit):
+SOLVER_CONFIGS = {
+    "default": [],
+    # Z3's nlsat can run for hours on a *failing* nonlinear goal; without it the incremental NL lemmas
+    # (Groebner/Horner/tangents) fail fast.  Neither configuration dominates, so units with #[verifier::nonlinear]
+    # functions (//@portfolio nl) are run under both: a function is discharged if either proves it, refuted if a
+    # configuration that finished reports an error for it and none proves it within the wall-clock limit.
+    "nl_no_nra": ["--smt-option", "smt.arith.nl.nra=false"],
+}
+
+
+def _verus_once(u, scratch, fname, text, rlimit, cfg, wall, cancel=None):
+    import subprocess
+    import threading
+    import time as _t
+    cmd = ["verus", fname, "--rlimit", str(rlimit), "--time", "--multiple-errors", "50"] + SOLVER_CONFIGS[cfg] + u.get("verus_args", [])
+    t0 = _t.time()
+    outp = os.path.join(scratch, fname + "." + cfg + ".out")
+    with open(outp, "w") as fo:
+        p = subprocess.Popen(cmd, cwd=scratch, env=common.env(), stdout=fo, stderr=subprocess.STDOUT, start_new_session=True)
+        status = "done"
+        while p.poll() is None:
+            if _t.time() - t0 > wall:
+                status = "timeout"
+            elif cancel is not None and cancel.is_set():
+                status = "cancelled"
+            if status != "done":
+                try:
+                    os.killpg(p.pid, 9)
+                except Exception:
+                    p.kill()
+                p.wait()
+                break
+            _t.sleep(0.1)
+    out = read(outp)
+    secs = _t.time() - t0
+    r = {"config": cfg, "rc": p.returncode, "seconds": round(secs, 2), "cmd": " ".join(shlex.quote(c) for c in cmd), "out_tail": out[-3000:],
+         "lines": text.count("\n"), "timed_out": status != "done", "status": status}
+    if status != "done":
+        r.update({"verified": None, "errors": None, "findings": [], "hard": []})
+        return r
+    verified, errors, findings, hard = parse_verus_output(out, os.path.join(scratch, fname), text)
+    r.update({"verified": verified, "errors": errors, "findings": findings, "hard": hard})
+    real = [f for f in findings if f["fn"] != "verif_vacuity_probe"]
+    if cancel is not None and not real and not hard and verified is not None:
+        cancel.set()  # this configuration proved everything: the others need not finish
+    return r
+
+
+def run_unit(u, scratch, rlimit, wall):
     res = {"unit": u["name"]}
-    for probe in (False, True):
-        text, rwc, extracted = build_unit(u, probe=probe)
-        fname = "%s%s.rs" % (u["name"], "_probe" if probe else "")
-        path = os.path.join(scratch, fname)
-        write(path, text)
-        cmd = ["verus", fname, "--rlimit", str(rlimit), "--time", "--multiple-errors", "50"]
-        rc, out, secs = sh(cmd, cwd=scratch, timeout=3600)
-        verified, errors, findings, hard = parse_verus_output(out, path, text)
-        key = "probe" if probe else "main"
-        res[key] = {"rc": rc, "seconds": round(secs, 2), "verified": verified, "errors": errors, "findings": findings,
-                    "hard": hard, "cmd": " ".join(shlex.quote(c) for c in cmd), "out_tail": out[-3000:],
-                    "lines": text.count("\n")}
-        if not probe:
-            res["rewrites"] = rwc
-            res["extracted"] = extracted
-            res["text"] = text
-        m = re.search(r"total-time:\s+(\d+)", out)
-        sm = re.search(r"smt-time[^\d]*(\d+)|total-smt[^\d]*(\d+)", out)
-        res[key]["smt_ms"] = int(next(g for g in sm.groups() if g)) if sm else None
+    nl = u.get("portfolio") == "nl"
+    text, rwc, extracted = build_unit(u, probe=False)
+    res.update({"rewrites": rwc, "extracted": extracted, "text": text})
+    fname = "%s.rs" % u["name"]
+    write(os.path.join(scratch, fname), text)
+    ptext, _rw, _ex = build_unit(u, probe=True)
+    pname = "%s_probe.rs" % u["name"]
+    write(os.path.join(scratch, pname), ptext)
+    jobs = [(fname, text, c) for c in (["default", "nl_no_nra"] if nl else ["default"])]
+    jobs.append((pname, ptext, "nl_no_nra" if nl else "default"))
+    import threading
+    cancel = threading.Event() if nl else None
+    with ThreadPoolExecutor(max_workers=len(jobs)) as ex:
+        outs = list(ex.map(lambda j: _verus_once(u, scratch, j[0], j[1], rlimit, j[2], wall, cancel if j[0] == fname else None), jobs))
+    res["runs"] = outs[:-1]
+    res["probe"] = outs[-1]
+    # combine the portfolio
+    done = [r for r in res["runs"] if not r["timed_out"] and r["verified"] is not None and not r["hard"]]
+    hard = [h for r in res["runs"] for h in r["hard"]]
+    main = {"cmd": " ;; ".join(r["cmd"] for r in res["runs"]), "seconds": max(r["seconds"] for r in res["runs"]),
+            "lines": text.count("\n"), "hard": hard if not done else [], "configs": [
+                {"config": r["config"], "seconds": r["seconds"], "timed_out": r["timed_out"], "verified": r["verified"], "errors": r["errors"]}
+                for r in res["runs"]],
+            "out_tail": "\n".join(r["out_tail"][-1200:] for r in res["runs"])}
+    if not done:
+        main.update({"verified": None, "errors": None, "findings": []})
+    else:
+        failing_sets = [set(f["fn"] for f in r["findings"]) for r in done]
+        still = set.intersection(*failing_sets)  # functions no finished configuration could prove
+        best = min(done, key=lambda r: r["errors"])
+        fnd = []
+        for r in done:
+            for f in r["findings"]:
+                if f["fn"] in still and not any(g["fn"] == f["fn"] and g["msg"] == f["msg"] for g in fnd):
+                    fnd.append(f)
+        main.update({"verified": best["verified"], "errors": len(still), "findings": fnd})
+    res["main"] = main
     return res
 
 
 def run(prop, tier, obs, jobs, replay_dir, known_sites):
     scratch = common.new_scratch("v")
     rlimit = 60 if tier == "quick" else 200
+    wall = 150 if tier == "quick" else 900
     units = [o["template"] for o in obs]
-    with ThreadPoolExecutor(max_workers=max(1, min(jobs // 2, len(units)))) as ex:
-        results = list(ex.map(lambda u: run_unit(u, scratch, rlimit), units))
+    with ThreadPoolExecutor(max_workers=max(1, min(jobs // 3, len(units)))) as ex:
+        results = list(ex.map(lambda u: run_unit(u, scratch, rlimit, u.get("timeout", wall)), units))
     records, violations, cmds = [], [], []
     info = {"units": [], "rewrites_applied": {}, "trusted_base": [], "assumptions": []}
+    # status of every function of every unit, for the cross-unit arbiter rule: an `exact` obligation (expression tree in
+    # the code's own association) that fails is forgiven iff its idealised twin, which states the same clause over the
+    # reals, is PROVED on the same tree (a twin that fails or times out forgives nothing)
+    unit_status = {}
     for u, res in zip(units, results):
+        m = res["main"]
+        if m["hard"] or m["verified"] is None:
+            unit_status[u["name"]] = None
+        else:
+            unit_status[u["name"]] = {f["fn"] for f in m["findings"]}
+
+    def arbiter_ok(arb, this_unit, names, failing, unit_status):
+        if "::" in arb and arb.split("::")[0] in unit_status:
+            un, fn = arb.split("::", 1)
+            st = unit_status[un]
+            return st is not None and fn not in st
+        return arb in names and arb not in failing
+
+    # units that exist only as arbiters may be undecided (time out) on a changed tree without making the property undecided,
+    # provided the obligations they arbitrate are themselves decided
+    order = sorted(zip(units, results), key=lambda ur: unit_status[ur[0]["name"]] is None)
+    for u, res in order:
         main, probe = res["main"], res["probe"]
         cmds.append(main["cmd"])
+        if (main["hard"] or main["verified"] is None) and any(
+                (v["rec"].get("arbiter") or "").split("::")[0] == u["name"] for v in violations):
+            # an arbiter unit that could not be decided on this tree while an obligation it arbitrates is refuted:
+            # the refutation stands (nothing re-proved the clause); the unit's own obligations are reported undecided
+            for ob in u["obs"]:
+                records.append({"name": "%s::%s" % (u["name"], ob["fn"]), "engine": "verus", "unit": u["name"], "status": "undecided",
+                                "function": ob.get("real"), "clause": ob.get("clause"), "kind": ob.get("kind"),
+                                "note": "solver timeout / not decidable on this tree"})
+            continue
         if main["hard"] or main["verified"] is None:
-            raise Undecided("verus unit %s: not a refutation (syntax/type error, rlimit or crash):\n%s\n%s" % (
+            raise Undecided("verus unit %s: not a refutation (syntax/type error, rlimit, timeout or crash):\n%s\n%s" % (
                 u["name"], "\n".join(main["hard"])[:3000], main["out_tail"][-1500:]))
         # vacuity: the assert(false) probes must all fail, and the axiom probe must fail
         spec_fns = [e["fn"] for e in res["extracted"] if e["has_spec"]]
         probe_failed = {f["fn"] for f in probe["findings"] if "assertion failed" in f["kind"] or True}
+        if probe["timed_out"]:
+            raise Undecided("verus unit %s probe variant timed out" % u["name"])
         if probe["hard"] or probe["verified"] is None:
             raise Undecided("verus unit %s probe variant did not run: %s" % (u["name"], (probe["hard"] or [probe["out_tail"]])[0][:1500]))
         vac = [f for f in spec_fns if f not in probe_failed]
@@ -931,15 +1055,24 @@ def run(prop, tier, obs, jobs, replay_dir, known_sites):
         for e in res["extracted"]:
             if e["has_spec"] and e["fn"] not in names:
                 names[e["fn"]] = {"fn": e["fn"], "real": e["real"], "at": "%s:%d" % (e["file"], e["line"]), "clause": "contract of the extracted function", "kind": "exact"}
+        forgiven = {}
+        for fn, ob in names.items():
+            arb = ob.get("arbiter")
+            if arb and fn in failing and arbiter_ok(arb, u["name"], names, failing, unit_status):
+                forgiven[fn] = failing.pop(fn)
         unknown_fail = [k for k in failing if k not in names]
         for fn, ob in sorted(names.items()):
             ex = [e for e in res["extracted"] if e["fn"] == fn]
-            rec = {"name": "%s::%s" % (u["name"], fn), "engine": "verus", "unit": u["name"],
+            rec = {"name": "%s::%s" % (u["name"], fn), "engine": "verus", "unit": u["name"], "arbiter": ob.get("arbiter"),
                    "function": ob.get("real") or (ex[0]["real"] if ex else fn),
                    "at": ob.get("at") or ("%s:%d" % (ex[0]["file"], ex[0]["line"]) if ex else None),
                    "clause": ob.get("clause"), "kind": ob.get("kind", "exact"), "solver": "z3 (verus)",
                    "seconds": main["seconds"], "extracted_from_repo": bool(ex)}
-            if fn in failing:
+            if fn in forgiven:
+                rec["status"] = "discharged"
+                rec["note"] = ("exact expression tree differs from the recorded association (%s); the idealised twin %s re-proved the "
+                               "clause over the reals on this tree" % ("; ".join(f["msg"] for f in forgiven[fn]), ob.get("arbiter")))
+            elif fn in failing:
                 rec["status"] = "refuted"
                 rec["failed"] = [{"description": f["msg"], "lines": f["lines"]} for f in failing[fn]]
                 rp = os.path.join(replay_dir, "%s.%s.json" % (u["name"], fn))
@@ -968,6 +1101,7 @@ def run(prop, tier, obs, jobs, replay_dir, known_sites):
         for k, v in res["rewrites"].items():
             info["rewrites_applied"]["%s: %s" % (u["name"], k)] = v
         info["units"].append({"unit": u["name"], "verified_fns": main["verified"], "errors": main["errors"], "seconds": main["seconds"],
+                              "solver_configs": main["configs"],
                               "probe_failures": probe["errors"], "generated_lines": main["lines"],
                               "extracted": [{k: e[k] for k in ("fn", "real", "file", "line")} for e in res["extracted"]]})
         scan = scan_assumptions(res["text"])
